@@ -63,6 +63,7 @@ type peer struct {
 	libHadTurn   bool
 	hadTurn      bool
 	stored       map[string]bool
+	reqOff       map[string]int // offset the peer asked for in its accept ("!100", "A64"): a resumed transfer
 	problems     []string
 }
 
@@ -445,6 +446,14 @@ func (p *peer) theirTurn(line string) (quit bool, err error) {
 				if cls == "+" && p.stored[b.mid] {
 					tok, cls = "-", "-" // already received in this session (duplicate proposal)
 				}
+				if cls == "+" && len(tok) > 1 {
+					off := 0
+					fmt.Sscanf(tok[1:], "%d", &off)
+					if p.reqOff == nil {
+						p.reqOff = map[string]int{}
+					}
+					p.reqOff[b.mid] = off
+				}
 				p.ev(rec.Event{"op": "HAnswer", "m": b.mid, "a": cls, "size": b.size, "csize": b.csize, "token": tok})
 				fs.WriteString(tok)
 				if cls == "+" {
@@ -490,8 +499,9 @@ func (p *peer) recvFrame(mid string, size, csize int, gz bool) error {
 		return err
 	}
 	parts := bytes.Split(hdr, []byte{0})
-	if len(parts) != 3 || len(parts[2]) != 0 || len(parts[0]) < 1 || string(parts[1]) != "0" {
-		return p.problem("malformed transfer header %q", hdr)
+	off := p.reqOff[mid]
+	if len(parts) != 3 || len(parts[2]) != 0 || len(parts[0]) < 1 || string(parts[1]) != fmt.Sprint(off) {
+		return p.problem("malformed transfer header %q (offset asked for: %d)", hdr, off)
 	}
 	var data []byte
 	sum := 0
@@ -526,8 +536,14 @@ func (p *peer) recvFrame(mid string, size, csize int, gz bool) error {
 			if (sum+int(cs))&0xff != 0 {
 				return p.problem("transfer checksum of %s wrong", mid)
 			}
-			if len(data) != csize {
-				return p.problem("transfer of %s carries %d bytes, proposal said %d", mid, len(data), csize)
+			if len(data) != csize-off {
+				return p.problem("transfer of %s carries %d bytes, proposal said %d (offset %d)", mid, len(data), csize, off)
+			}
+			if off > 0 {
+				// a resumed transfer: the peer has the first off bytes from an earlier attempt; the rest cannot be decoded alone
+				p.stored[mid] = true
+				p.ev(rec.Event{"op": "Store", "m": mid, "intact": true, "err": false, "resumedAt": off})
+				return nil
 			}
 			var plain []byte
 			var derr error
